@@ -148,7 +148,7 @@ def run_check(prop_id, tier=None, seed=None, max_runs=None, budget=None):
         "coverage": {
             "evaluations": len(summaries),
             "distinct_nontrivial": len(nontriv),
-            "rule": prop.RULE,
+            "rule": prop.RULE + (" " + prop.RULE_MORE if getattr(prop, "RULE_MORE", None) else ""),
             "samples": samples or ["no run completed"],
             "runs_per_hour": int(len(summaries) / max(wall_runs, 1e-6) * 3600),
             "simulated_seconds": round(virt / 1e6, 3),
